@@ -297,7 +297,7 @@ def run(ctx, build):
     R = ctx.runner('Fat')
     RB = ctx.try_runner('Boot')
     rng = ctx.rng
-    tables = 60 if ctx.thorough else 3
+    tables = 150 if ctx.thorough else 3
     if ctx.widen:
         tables += 1
     for _ in range(4 if ctx.thorough else 1):
